@@ -302,13 +302,22 @@ static void op_keythread(const V &a, V &r) {
 // the spec is the second one this process and thread ever use.  The two hashes (pre = 0 / 1, separate processes) must be equal.
 static void op_refhash(const V &a, V &r) {
     const ll *v = a.data() + SPECN; int pre = (int) v[1];
-    if (pre) {
+    if (pre == 1) {
         uint32_t seed = 4242; tfhe_random_generator_setSeed(&seed, 1);
         TFheGateBootstrappingParameterSet *p2 = new_default_gate_bootstrapping_parameters(a[0] == 80 ? 128 : 80);
         TFheGateBootstrappingSecretKeySet *sk2 = new_random_gate_bootstrapping_secret_keyset(p2);
         LweSample *w = new_gate_bootstrapping_ciphertext_array(4, p2);
         for (int g = 0; g < 14; g++) { for (int q = 0; q < 3; q++) bootsSymEncrypt(&w[q], (g >> q) & 1, sk2); apply_gate(g, &w[3], &w[0], &w[1], &w[2], 1, &sk2->cloud); }
         delete_gate_bootstrapping_ciphertext_array(4, w); delete_gate_bootstrapping_secret_keyset(sk2); delete_gate_bootstrapping_parameters(p2);
+    }
+    if (pre == 2) {   // ... or a small custom key set whose every layout parameter differs: n = 12, (l,Bgbit) = (4,5), key switch (t,basebit) = (5,3), other noise levels
+        uint32_t seed = 4243; tfhe_random_generator_setSeed(&seed, 1);
+        LweParams *lp = new_LweParams(12, ldexp(1., -17), 0.012467); TLweParams *tp = new_TLweParams(1024, 1, ldexp(1., -30), 0.012467); TGswParams *gp = new_TGswParams(4, 5, tp);
+        TFheGateBootstrappingParameterSet *p2 = new TFheGateBootstrappingParameterSet(5, 3, lp, gp);
+        TFheGateBootstrappingSecretKeySet *sk2 = new_random_gate_bootstrapping_secret_keyset(p2);
+        LweSample *w = new_gate_bootstrapping_ciphertext_array(4, p2);
+        for (int g = 0; g < 14; g++) { for (int q = 0; q < 3; q++) bootsSymEncrypt(&w[q], (g >> q) & 1, sk2); apply_gate(g, &w[3], &w[0], &w[1], &w[2], 1, &sk2->cloud); }
+        delete_gate_bootstrapping_ciphertext_array(4, w); delete_gate_bootstrapping_secret_keyset(sk2); delete p2; delete_TGswParams(gp); delete_TLweParams(tp); delete_LweParams(lp);
     }
     need_keys(a);
     const int n = cur.params->in_out_params->n;
